@@ -164,6 +164,8 @@ func zzMinimalProgram() *Program {
 // int32 line/col of function/local/freevar/load/global positions, int Cells
 // entry, MaxStack/NumParams/NumKwonlyParams) and is reproduced exactly by
 // DecodeProgram(Encode(p)); the re-encoding is byte-identical.
+//
+//verif:maxpaths 4000
 func zzH17_wide() {
 	p := zzMinimalProgram()
 	top := p.Toplevel
@@ -297,6 +299,7 @@ func zzH17_header_version() {
 // string-section offset, never panic: DecodeProgram returns an error or a program.
 //
 //verif:concretize 256
+//verif:maxpaths 4000
 func zzH17_header_short() {
 	enc := zzMinimalProgram().Encode()
 	mode := zzChoice("mode", 2)
